@@ -53,7 +53,7 @@ end CallParens
 namespace UnusedWhile
 
 /-- a removed loop either exhausts the budget or does nothing at all -/
-theorem while_removed_le {api : EvalApi} (ht : EvalTotal api) {N : NumOps} (call : CallFn N) (ρ : ExtOracle N)
+theorem while_removed_le {N : NumOps} {api : EvalApi} (ht : EvalTotal N api) (call : CallFn N) (ρ : ExtOracle N)
     (k : Nat) (env : Env N) (c : Expr) (body : Block) (hk : keep api (.while_ c body) = false) (σ : State N) :
     execS call ρ k env (.while_ c body) σ = .timeout ∨ execS call ρ k env (.while_ c body) σ = .ok (.next env) σ := by
   have hse : api.hasSideEffects c = false := by
@@ -72,7 +72,7 @@ theorem while_removed_le {api : EvalApi} (ht : EvalTotal api) {N : NumOps} (call
       have := ht.decided c false htr call ρ (n + 1) env σ σ vs hok
       simp [execS, whileLoop, hok, Res.bind, this]
 
-theorem execSs_filter_le {api : EvalApi} (ht : EvalTotal api) {N : NumOps} (call : CallFn N) (ρ : ExtOracle N) (k : Nat)
+theorem execSs_filter_le {N : NumOps} {api : EvalApi} (ht : EvalTotal N api) (call : CallFn N) (ρ : ExtOracle N) (k : Nat)
     (stmts : List Stmt) (env : Env N) (σ : State N) :
     execSs call ρ k env stmts σ = .timeout ∨
       execSs call ρ k env (stmts.filter (keep api)) σ = execSs call ρ k env stmts σ := by
@@ -99,17 +99,17 @@ theorem execSs_filter_le {api : EvalApi} (ht : EvalTotal api) {N : NumOps} (call
         · simp only [hok, Res.bind]; exact ih env σ
       | _ => simp [keep] at hk'
 
-theorem hooksLe {api : EvalApi} (ht : EvalTotal api) : HooksLe true (processor api) where
+theorem hooksLe {api : EvalApi} (ht : ∀ N, EvalTotal N api) : HooksLe true (processor api) where
   block := fun b _ N call ρ k env σ => by
     cases b with
     | mk stmts last =>
       simp only [processor, processBlock, execB]
-      rcases execSs_filter_le ht call ρ k stmts env σ with hto | heq
+      rcases execSs_filter_le (ht N) call ρ k stmts env σ with hto | heq
       · left; exact ⟨trivial, by simp [hto, Res.bind]⟩
       · right; rw [heq]
 
 /-- whole rule, every program: same observable outcome unless the original exhausts its budget -/
-theorem apply_upto {api : EvalApi} (ht : EvalTotal api) (b : Block) {N : NumOps} (ρ : ExtOracle N) (n : Nat)
+theorem apply_upto {api : EvalApi} (ht : ∀ N, EvalTotal N api) (b : Block) {N : NumOps} (ρ : ExtOracle N) (n : Nat)
     (externs : List String) :
     runProgram ρ n externs b = .timeout ∨ runProgram ρ n externs (apply api b) = runProgram ρ n externs b :=
   Visitor.runDefault_upto (hooksLe ht) b () ρ n externs
